@@ -416,9 +416,20 @@ func (r *rig) actors() []gx.Actor {
 	p := r.p
 	var acts []gx.Actor
 	anyRunning := false
+	// while one member's Close is in progress the application does nothing with the other members:
+	// Close has to complete on its own, not because somebody else leaves or cancels
+	closingNow := false
+	for _, m := range r.ms {
+		if m.closing && !m.closed {
+			closingNow = true
+		}
+		if m.running {
+			anyRunning = true
+		}
+	}
 	for _, m := range r.ms {
 		m := m
-		if m.closing {
+		if m.closing || closingNow {
 			continue
 		}
 		name := string(rune('A' + m.idx))
